@@ -28,6 +28,7 @@ type Sched struct {
 	Salt     uint64
 	Pins     []Pin
 	Off      bool
+	Skip     map[string]bool // sites at which no delay is inserted
 	sleepers atomic.Int32
 	visits   atomic.Int64
 	mu       sync.Mutex
@@ -55,7 +56,7 @@ func (s *Sched) Delay(site, key string) time.Duration {
 }
 
 func (s *Sched) hook(site, key string) {
-	if s.Off {
+	if s.Off || s.Skip[site] {
 		return
 	}
 	s.visits.Add(1)
